@@ -36,6 +36,24 @@ def fresh_dir(name: str = "case") -> Path:
     return d
 
 
+def notes_root(name: str, idx: int) -> Path:
+    """A fresh, existing notes directory <scratch>/<name>/org whose SPELLING varies with idx: most are canonical
+    absolute paths; idx % 8 == 3 is reached through a symlink (org -> real_notes) and idx % 8 == 7 through a '..'
+    component.  A command must behave the same however its --dir is spelled."""
+    base = fresh_dir(name)
+    v = idx % 8
+    if v == 3:
+        (base / "real_notes").mkdir()
+        (base / "org").symlink_to(base / "real_notes", target_is_directory=True)
+        return base / "org"
+    if v == 7:
+        (base / "x").mkdir()
+        (base / "org").mkdir()
+        return base / "x" / ".." / "org"
+    (base / "org").mkdir()
+    return base / "org"
+
+
 class Compiled:
     __slots__ = ("page", "parser_errors", "lexer_errors", "exc")
 
